@@ -24,7 +24,7 @@ Theorem C04_enum :
     enum_entry en h vs e = Ok (Ok [ir]) ->
     exists vp, enum_vplans (en_kind e) h vs = Some vp /\
                (ih_wtypes (ir_hdr ir), ih_wpreds (ir_hdr ir))
-               = spec_where (e_generics en) (top_levels (en_kind e) e h) vp.
+               = spec_where (decl_generics (en_kind e) (e_name en) (e_generics en)) (top_levels (en_kind e) e h) vp.
 Proof. exact enum_entry_where. Qed.
 
 (** the type-level attributes are parsed without `derive_ex`: the hypothesis above always holds *)
